@@ -37,7 +37,8 @@ MANIFEST = {
             "a function of interfaces and gateway only, never of the ARP cache (the host-side resolution function is translated "
             "statement by statement). Application exchanges identified by a (port, protocol) key (receiver look-up, open-port test, "
             "answer to the source) are in the model; the addressee, termination and fuel theorems range over them. Float metrics: on "
-            "finite metrics the float loop is the integer loop; for every table the selected entry has no strictly cheaper rival of its "
+            "A switch re-points a MAC to the port it was last seen on, whatever its table held (learning is unconditional and precedes "
+            "the table read); R-net re-cables hosts at run time. On finite metrics the float loop is the integer loop; for every table the selected entry has no strictly cheaper rival of its "
             "prefix, and for every nan-free (= constructible: RouteEntry refuses NaN) table it is the minimum in -inf <= finite <= inf. Tie: constants, comparison "
             "operators, acceptance tests, call order and what the ranking argument rests on (DMZ broadcast guard, routers resolve "
             "without ARP, replies start nothing, ARP pairs genuine, find_best_route pure) regenerated from the source "
@@ -61,7 +62,8 @@ MANIFEST = {
 MODULES = ["PrimaiteModel.Props.C08", "PrimaiteModel.Props.C08Forward", "PrimaiteModel.Lemmas.ForwardInv",
            "PrimaiteModel.Props.C08Addressee", "PrimaiteModel.Props.C08Liveness", "PrimaiteModel.Props.C08FuelMono",
            "PrimaiteModel.Props.C08Termination", "PrimaiteModel.Props.C08RouteOps", "PrimaiteModel.Props.C08Cold",
-           "PrimaiteModel.Props.C08ColdRouter", "PrimaiteModel.Props.C08HostHop", "PrimaiteModel.Props.C08Metric"]
+           "PrimaiteModel.Props.C08ColdRouter", "PrimaiteModel.Props.C08HostHop", "PrimaiteModel.Props.C08Metric",
+           "PrimaiteModel.Props.C08SwitchLearn"]
 EXE = "drv_c08"
 
 
@@ -224,6 +226,8 @@ def _run_net(ctx: Ctx):
                 ctx.count("net-misconfig:" + key)
         if notes.get("dual_homed") is not None:
             ctx.count("net-dual-homed-host")
+        if notes.get("recable"):
+            ctx.count("net-recabled-hosts", notes["recable"])
         if notes.get("kinds"):
             ctx.count("net-kinds:" + notes["kinds"])
         if notes.get("fw") and "firewall" in notes.get("kinds", ""):
